@@ -3,7 +3,7 @@
    (c06_call_runs) — the loop keeps nothing else between iterations, so calling again after an error re-enters it
    where it left; at that level faults are dropped from the schedule without changing anything (c06_faults_invisible). *)
 From FB Require Import Sem.Base Sem.Lemmas Model.Fb Spec.Api Spec.Frames Spec.Retry
-  Facets.Fb Facets.Fb2 Facets.Rf Facets.RfRefine Facets.C06 Facets.C06Retry.
+  Facets.Fb Facets.Fb2 Facets.Rf Facets.RfRefine Facets.C06 Facets.C06Retry Facets.DfContract Facets.C06Frames.
 Open Scope Z_scope.
 
 Theorem c06_call_runs : forall SIZE chk RS (R : Reader RS) (AR : AReader RS) df,
@@ -60,6 +60,16 @@ Theorem c06_retrying_caller : forall SIZE chk (R : Reader fstream) df,
   runs (abody SIZE fstream_ar df) (clean (unread s, st)) r (clean (unread s', st')) /\ Inv2 SIZE s'.
 Proof. intros SIZE chk R df HR Hdf. exact (retrying_caller_sees_no_faults SIZE chk R HR df Hdf). Qed.
 
+(* C06 and C02 composed: for a deframer honouring the documented contract, the retrying caller obtains exactly what the chunk-free
+   specification `next` gives on the bytes the connection carries (unread ++ unpulled) — the stream's next frame and the same bytes
+   left over — wherever the transient faults are and however many *)
+Theorem c06_retry_gets_next : forall SIZE chk (R : Reader fstream) df,
+  implements R fstream_ar -> df_contract SIZE df ->
+  forall fuel tries s st r s' st', Inv2 SIZE s -> all_transient st ->
+  retry chk R df fuel tries (s, st) = Val (Done r) (s', st') ->
+  exists o, out_of (Done r) = Some o /\ (o, unread s' ++ f_rest st') = next SIZE df (unread s ++ f_rest st) /\ Inv2 SIZE s'.
+Proof. exact retrying_caller_gets_next. Qed.
+
 (* non-vacuity: a frame arrives in two chunks with a TimedOut and a WouldBlock between them; three calls, the third returns it *)
 Example c06_retry_ex :
   let st := {| f_rest := [97; 98; 10; 99]; f_sched := [Give 2; Fail TimedOut; Fail WouldBlock; Give 2] |} in
@@ -81,3 +91,4 @@ Print Assumptions c06_own_error_repeats.
 Print Assumptions c06_panic.
 Print Assumptions c06_transport_exists.
 Print Assumptions c06_retrying_caller.
+Print Assumptions c06_retry_gets_next.
